@@ -48,6 +48,8 @@ pub struct Profile {
     pub w_select: u64,
     pub w_order_query: u64,
     pub w_range_query: u64,
+    /// Aggregates, GROUP BY, DISTINCT and two-table joins as raw SQL (twin comparison only).
+    pub w_raw_query: u64,
     pub w_advance: u64,
     pub w_reopen: u64,
     /// Share (per 100) of deliberately invalid statements.
@@ -81,6 +83,7 @@ impl Profile {
             w_select: 10,
             w_order_query: 0,
             w_range_query: 0,
+            w_raw_query: 0,
             w_advance: 10,
             w_reopen: 0,
             invalid_pct: 0,
@@ -495,6 +498,7 @@ impl<'a> Gen<'a> {
             + p.w_select
             + p.w_order_query
             + p.w_range_query
+            + p.w_raw_query
             + p.w_advance
             + p.w_reopen;
         let mut x = self.rng.below(total);
@@ -595,6 +599,46 @@ impl<'a> Gen<'a> {
                 }
                 Stmt::Select(q)
             }
+        } else if take!(p.w_raw_query) {
+            let ints: Vec<String> = def
+                .cols
+                .iter()
+                .filter(|c| c.ty == Ty::Int)
+                .map(|c| c.name.clone())
+                .collect();
+            let any = def.cols[self.rng.usize(def.cols.len())].name.clone();
+            match self.rng.usize(5) {
+                0 => Stmt::Raw(format!("SELECT {any}, count(*) FROM {table} GROUP BY {any}")),
+                1 => Stmt::Raw(format!("SELECT DISTINCT {any} FROM {table}")),
+                2 => match ints.first() {
+                    Some(c) => Stmt::Raw(format!(
+                        "SELECT count(*), count({c}), sum({c}), min({c}), max({c}) FROM {table}"
+                    )),
+                    None => Stmt::Raw(format!("SELECT count(*), count({any}) FROM {table}")),
+                },
+                3 => match ints.first() {
+                    Some(c) => Stmt::Raw(format!(
+                        "SELECT {any}, sum({c}) FROM {table} WHERE {c} > 0 GROUP BY {any}"
+                    )),
+                    None => Stmt::Raw(format!("SELECT count(*) FROM {table} WHERE {any} IS NULL")),
+                },
+                _ => {
+                    let t2 = self.pick_table().unwrap();
+                    let d2 = self.model.tables[&t2].0.clone();
+                    let i2: Vec<String> = d2
+                        .cols
+                        .iter()
+                        .filter(|c| c.ty == Ty::Int)
+                        .map(|c| c.name.clone())
+                        .collect();
+                    match (ints.first(), i2.last()) {
+                        (Some(a), Some(b)) => Stmt::Raw(format!(
+                            "SELECT x.{a}, y.{b} FROM {table} x JOIN {t2} y ON x.{a} = y.{b}"
+                        )),
+                        _ => Stmt::Raw(format!("SELECT count(*) FROM {table}")),
+                    }
+                }
+            }
         } else if take!(p.w_advance) {
             let ms = *self.rng.pick(&[1u64, 999, 1000, 1500, 2500, 60_000, 3_600_000]);
             return Step::Advance { ms };
@@ -621,7 +665,30 @@ impl<'a> Gen<'a> {
                 .filter(|c| c.ty == Ty::Int)
                 .map(|c| c.name.clone())
                 .collect();
-            let s = match self.rng.usize(9) {
+            // tables with an INT primary key (joins on them are planned as merge joins on disk)
+            let pk_tables: Vec<(String, String)> = self
+                .model
+                .tables
+                .iter()
+                .filter_map(|(n, (d, _))| {
+                    d.pk.filter(|i| d.cols[*i].ty == Ty::Int)
+                        .map(|i| (n.clone(), d.cols[i].name.clone()))
+                })
+                .collect();
+            let s = match self.rng.usize(11) {
+                9 | 10 if pk_tables.len() >= 2 => {
+                    let i = self.rng.usize(pk_tables.len());
+                    let mut j = self.rng.usize(pk_tables.len());
+                    if j == i {
+                        j = (j + 1) % pk_tables.len();
+                    }
+                    let ((ta, ka), (tb, kb)) = (pk_tables[i].clone(), pk_tables[j].clone());
+                    let kind = *self.rng.pick(&["JOIN", "LEFT JOIN", "RIGHT JOIN", "FULL JOIN"]);
+                    Stmt::Raw(format!(
+                        "SELECT x.{ka}, y.{kb} FROM {ta} x {kind} {tb} y ON x.{ka} = y.{kb}"
+                    ))
+                }
+                9 | 10 => Stmt::Select(self.gen_order_query(&t)),
                 0 => {
                     let mut q = Query::star(&t);
                     q.pred = self.gen_pred(&def, true);
